@@ -17,6 +17,8 @@ class N:
     def __init__(self, t):
         if isinstance(t, N):
             t = t.t
+        elif hasattr(t, "t") and z3.is_expr(getattr(t, "t")) and not isinstance(t, SV):
+            t = t.t
         elif isinstance(t, bool):
             t = Z.mk_bool(t)
         elif isinstance(t, int):
@@ -144,7 +146,7 @@ class AnyView:
 
 
 def _term(x):
-    if isinstance(x, (N, AnyView, ObjView, SeqView)):
+    if isinstance(x, (N, AnyView, ObjView, SeqView, TupleView)):
         return x.t
     if isinstance(x, SV):
         return x.t
@@ -248,6 +250,21 @@ class SeqView:
     __hash__ = None
 
 
+class TupleView:
+    def __init__(self, spec, t, ty, heap):
+        self._spec, self.t, self.ty, self._heap = spec, t, ty, heap
+
+    @property
+    def id(self):
+        return Z.Val.id(self.t)
+
+    def __getitem__(self, k):
+        items = z3.Select(self._spec.ctx.rd(self._heap, "$item"), self.id)
+        return self._spec.view_term(z3.Select(items, z3.IntVal(k)), self.ty.elems[k], self._heap)
+
+    __hash__ = None
+
+
 class Spec:
     """evaluation context of contract clauses"""
 
@@ -290,6 +307,8 @@ class Spec:
             return N(t)
         if isinstance(ty, TSeq):
             return SeqView(self, t, ty, heap)
+        if isinstance(ty, TTuple):
+            return TupleView(self, t, ty, heap)
         if isinstance(ty, (TObj, TAbs, TExc, TFn, TRef)):
             if isinstance(ty, TObj):
                 self.ctx.resolve_ty(ty)
@@ -354,8 +373,9 @@ def _b(x):
 
 
 class Loop:
-    def __init__(self, inv, modifies=None, local_types=None, decreases=None, label=None):
+    def __init__(self, inv, modifies=None, local_types=None, decreases=None, label=None, step=None):
         self.inv = inv
+        self.step = step  # per-iteration contract: clauses over (state at iteration start, state at iteration end)
         self.modifies = modifies
         self.local_types = local_types or {}
         self.decreases = decreases
@@ -388,6 +408,7 @@ class Contract:
         self.has_events = ns.get("has_events", False)
         self.never_returns = ns.get("never_returns", False)
         self.new_object = ns.get("new_object")
+        self.witness = ns.get("witness")  # () -> dict of real objects satisfying requires (vacuity guard for quantified preconditions)
 
     def __repr__(self):
         return "<contract %s>" % self.key
